@@ -8,6 +8,7 @@ import (
 	"sync"
 	"sync/atomic"
 	"testing"
+	"time"
 
 	hessian "github.com/vogo/gohessian"
 	"pgregory.net/rapid"
@@ -302,8 +303,19 @@ func TestC12(t *testing.T) {
 		}
 		v := val.Interface()
 		nm := map[string]string{"": "dyn.Cold", "[]int32": "[int"}
-		tm := map[string]reflect.Type{"dyn.Cold": typ, "[int": reflect.TypeOf([]int32{})}
+		tm := map[string]reflect.Type{"dyn.Cold": typ, "[int": reflect.TypeOf([]int32{}), "[int32": reflect.TypeOf([]int32{}), "Inner": reflect.TypeOf(zoo.Inner{})}
 		n := []int{2, 4, 8, 16}[rng.next()%4]
+		// the same instance as a newer peer would send it: unknown fields in between (the decoder's
+		// skip path, including whatever it logs or caches about unknown fields, runs concurrently too)
+		var alt []byte
+		if a, perr := zoo.Project(v, nm); perr == nil {
+			obj := &av.V{K: av.Object, Type: a.Type}
+			for i := range a.Fields {
+				obj.Fields = append(obj.Fields, fmt.Sprintf("unknown%d_%d", round, i), a.Fields[i])
+				obj.Elems = append(obj.Elems, c05Extra(i), a.Elems[i])
+			}
+			alt = refcodec.Encode(obj, refcodec.Canonical{}, refcodec.EncOptions{})
+		}
 		var ready, go_ int32
 		var wg sync.WaitGroup
 		errs := make([]string, n)
@@ -326,7 +338,11 @@ func TestC12(t *testing.T) {
 					return
 				}
 				outs[g] = b
-				o, err := hessian.NewDecoder(nil, tm).Decode(b)
+				in := b
+				if g%2 == 1 && alt != nil {
+					in = alt
+				}
+				o, err := hessian.NewDecoder(nil, tm).Decode(in)
 				if err != nil {
 					errs[g] = "decode: " + err.Error()
 					return
@@ -353,4 +369,119 @@ func TestC12(t *testing.T) {
 			}
 		}
 	}
+	// ---------------- nested interleaving, deterministic and single-goroutine: while instance A is
+	// in the middle of a call (inside one of its Write / Read / ReadRune callbacks), instance B
+	// performs a complete call of its own. This is one legal interleaving of "two instances used
+	// at the same time" at every callback point, and it needs no scheduler luck: package-level
+	// scratch buffers, pooled buffers handed back too early and shared tables show at once.
+	irng := seedFor("C12nested")
+	shapes := c12NestedValues(irng)
+	tmN, nmN := hessian.ExtractTypeNameMap(shapes)
+	encN := make([][]byte, len(shapes))
+	for i, v := range shapes {
+		b, err := hessian.NewEncoder(nil, copyNames(nmN)).Encode(v)
+		if err != nil {
+			t.Fatalf("C12 nested: reference encode of shape %d failed: %v", i, err)
+		}
+		encN[i] = b
+	}
+	for i := range shapes {
+		for j := range shapes {
+			// A encodes shapes[i]; at every Write, B encodes shapes[j] completely
+			w := &nestingWriter{inner: func() {
+				b, err := hessian.NewEncoder(nil, nmN).Encode(shapes[j])
+				if err != nil || !bytes.Equal(b, encN[j]) {
+					panic(fmt.Sprintf("inner encode differs (err %v)", err))
+				}
+			}}
+			var err error
+			pv, _ := guard(func() { err = hessian.NewEncoder(nil, nmN).WriteTo(w, shapes[i]) })
+			if pv != nil || err != nil || sameStream(encN[i], w.buf.Bytes()) != "" {
+				directFail(t, "C12", map[string]interface{}{"phase": "nested-encode", "outer": zoo.Describe(shapes[i], 200), "inner": zoo.Describe(shapes[j], 200)},
+					"C12 an Encoder encoding %s was disturbed by another Encoder encoding %s between two of its writes: err=%v panic=%v %s",
+					zoo.Describe(shapes[i], 120), zoo.Describe(shapes[j], 120), err, pv, sameStream(encN[i], w.buf.Bytes()))
+			}
+			// A decodes encN[i]; at every Read / ReadRune, B decodes encN[j] completely
+			want, _ := hessian.ToObject(encN[i], tmN)
+			rd := &nestingReader{countingReader: countingReader{b: encN[i]}, inner: func() {
+				if _, err := hessian.NewDecoder(nil, tmN).Decode(encN[j]); err != nil {
+					panic("inner decode failed: " + err.Error())
+				}
+			}}
+			var got interface{}
+			pv, _ = guard(func() { got, err = hessian.NewDecoder(nil, tmN).ReadFrom(rd) })
+			if pv != nil || err != nil || vcmp.EqualValues(want, got) != nil {
+				directFail(t, "C12", map[string]interface{}{"phase": "nested-decode", "outer": zoo.Describe(shapes[i], 200), "inner": zoo.Describe(shapes[j], 200)},
+					"C12 a Decoder decoding %s was disturbed by another Decoder decoding %s between two of its reads: err=%v panic=%v diff=%v",
+					zoo.Describe(shapes[i], 120), zoo.Describe(shapes[j], 120), err, pv, vcmp.EqualValues(want, got))
+			}
+			r.EvalN(2)
+			r.NonTrivial(av.Hash(fmt.Sprint("nested", i, j)))
+		}
+	}
+	r.Label("nested-interleaving:every-callback-point")
+}
+
+// c12NestedValues: one value per encoder / decoder code path that could own a scratch buffer.
+func c12NestedValues(rng *splitmix) []interface{} {
+	in := &zoo.Inner{A: 7, S: "shared"}
+	tm1, tm2 := time.UnixMilli(1500000000123), time.Unix(1600000000, 0)
+	return []interface{}{
+		&zoo.Scalars{B: true, I8: -3, I16: 300, I32: 70000, I: -5, I64: 1 << 40, U8: 200, U16: 60000, U32: 1 << 31, U: 99, U64: 1 << 63, F32: 0.1, F64: 3.14159, S: "héllo", Bin: []byte{1, 2, 3}, T: tm1},
+		&zoo.FloatFields{F32: 1.5, F64: 1e100, L64: []float64{0.1, 2, 300, 1e-300, -0.5}, L32: []float32{0.25, 7}},
+		&zoo.TimeCarrier{T: tm1, L: []time.Time{tm2, tm1, time.UnixMilli(-5)}, T2: tm2},
+		&zoo.StrCarrier{S: mkString(4, 2500, 0, 0, 3), L: []string{mkString(0, 2049, 0, 0, 4), "x"}, MK: map[string]int32{"k": 1}},
+		&zoo.BinCarrier{B: mkBytes(9000, 1), L: [][]byte{mkBytes(4097, 2)}},
+		&zoo.IntLists{I32: []int32{1, 300, 70000, -1 << 31}, I64: []int64{1, 1 << 20, 1 << 40, -1 << 63}, U64: []uint64{1 << 63}},
+		&zoo.SlPtr{L: []*zoo.Inner{in, nil, in, {A: 1, S: "other"}}},
+		&zoo.ManyL{Items: []interface{}{&zoo.K00{A: 1}, &zoo.K01{A: "x"}, &zoo.K02{A: 2}, &zoo.K00{A: 3}, []interface{}{int32(1), "s"}, map[interface{}]interface{}{"k": int64(5)}}},
+		&zoo.NMapHolder{T: "t", M: zoo.NMap{"a": {A: 1, B: "b"}}},
+		zoo.ManyClasses(20),
+	}
+}
+
+type nestingWriter struct {
+	buf   bytes.Buffer
+	inner func()
+	busy  bool
+}
+
+func (w *nestingWriter) Write(p []byte) (int, error) {
+	// keep p untouched until the inner call is over: a returned slice that aliases a
+	// recycled buffer is overwritten by the inner call before it is consumed here
+	if !w.busy {
+		w.busy = true
+		w.inner()
+		w.busy = false
+	}
+	return w.buf.Write(p)
+}
+
+type nestingReader struct {
+	countingReader
+	inner func()
+	busy  bool
+	runes int
+}
+
+func (r *nestingReader) Read(p []byte) (int, error) {
+	n, err := r.countingReader.Read(p)
+	// the bytes are in the caller's buffer now; if that buffer is shared, the inner call clobbers it
+	if !r.busy {
+		r.busy = true
+		r.inner()
+		r.busy = false
+	}
+	return n, err
+}
+
+func (r *nestingReader) ReadRune() (rune, int, error) {
+	c, n, err := r.countingReader.ReadRune()
+	r.runes++
+	if !r.busy && (r.runes < 4 || r.runes%97 == 0) { // a long string: not at every single character
+		r.busy = true
+		r.inner()
+		r.busy = false
+	}
+	return c, n, err
 }
